@@ -6,7 +6,7 @@ Correspondence + stress: harness/w_subproc.py runs the real implementation on sc
 (thorough) concurrent invocations per event loop, children dying in every way at several points; each invocation is
 compared with the model evaluated in Coq (Model/SubprocEval.v; by C17_noninterference_N the model of one invocation is the
 model of each of N) and with the specification (Spec/SubprocSpec.v, evaluated in Coq on the OBSERVED outcome)."""
-import copy, json
+import copy, json, re
 from lib import *
 
 UNITS = ['Subproc']
@@ -386,8 +386,10 @@ def run(tier, seed, replay=None):
     for whats, e, stream, idxs in pending:
         c = e['case']
         if len(c['invs']) == 1:
-            ck.violation('; '.join(sorted(set(whats))), c, stream=stream, extra={'broken_obligations': [o['name'] for o in ck.broken()], 'impl': e['impl'], 'model': e['models']},
-                         matcher=matcher)
+            w1 = sorted(set(whats))
+            ck.violation('; '.join(w1), c, stream=stream,
+                         extra={'broken_obligations': [o['name'] for o in ck.broken()], 'impl': e['impl'], 'model': e['models']},
+                         matcher=lambda fd, cc, w=w1: matcher(fd, cc, w))
             continue
         for ii, f in e['inv_fails']:
             needs.append([e, stream, ii, sorted(set(f))])
@@ -399,10 +401,19 @@ def run(tier, seed, replay=None):
         for jj in ([ii] if ii is not None else list(range(len(e['case']['invs'])))[:8]):
             cands.append(single(e['case'], jj))
             owner.append(k)
+    def norm(ws):
+        return set(re.sub(r'\d+', 'N', w) for w in ws)
+
+    def reproduces(ce, need):
+        """the candidate shows (one of) the SAME failure(s): invocation-level for an invocation, batch-level for a batch"""
+        e_, stream_, ii_, f_ = need
+        got = [w for _, fl in ce['inv_fails'] for w in fl] if ii_ is not None else ce['batch_fails']
+        return bool(norm(got) & norm(f_))
+
     resolved = {}
     if cands:
         for k, ce in zip(owner, rn.evaluate(cands)):
-            if k not in resolved and (ce['inv_fails'] or ce['batch_fails']):
+            if k not in resolved and reproduces(ce, needs[k]):
                 resolved[k] = ce
     unresolved = [k for k in range(len(needs)) if k not in resolved][:3]
     cands, owner = [], []
@@ -415,17 +426,19 @@ def run(tier, seed, replay=None):
             owner.append(k)
     if cands:
         for k, ce in zip(owner, rn.evaluate(cands)):
-            if k not in resolved and (ce['inv_fails'] or ce['batch_fails']):
+            if k not in resolved and reproduces(ce, needs[k]):
                 resolved[k] = ce
     for k, (e, stream, ii, f) in enumerate(needs):
         if k in resolved:
             ce = resolved[k]
-            ck.violation('; '.join(whats_of(ce)), ce['case'], stream=stream,
+            w2 = whats_of(ce)
+            ck.violation('; '.join(w2), ce['case'], stream=stream,
                          extra={'broken_obligations': [o['name'] for o in ck.broken()], 'impl': ce['impl'], 'model': ce['models'], 'original_batch_size': len(e['case']['invs'])},
-                         matcher=matcher)
+                         matcher=lambda fd, cc, w=w2: matcher(fd, cc, w))
         else:
             ck.violation('; '.join(f) + (f' (invocation {ii} of the batch)' if ii is not None else ''), e['case'], stream=stream,
-                         extra={'broken_obligations': [o['name'] for o in ck.broken()], 'impl': e['impl'], 'model': e['models'], 'needs_concurrency': True}, matcher=matcher)
+                         extra={'broken_obligations': [o['name'] for o in ck.broken()], 'impl': e['impl'], 'model': e['models'], 'needs_concurrency': True},
+                         matcher=lambda fd, cc, w=list(f): matcher(fd, cc, w))
     ck.violations.sort(key=lambda v: size_of(v['case']))
     if skipped:
         ck.notes.append(f'{skipped} cases skipped by workers after a hang had been observed')
